@@ -199,6 +199,39 @@ def check(case, r, out):
             out.violate('ack', 'ak9-vs-errors|%s' % ('accepted-with-errors' if gcode == 'A' else 'rejected-without-errors'),
                         'group %d acknowledged %r, errors inside: %s' % (k + 1, gcode, group_has_error))
             return
+    # (3b) every injected element fault is itemised at the position where it was injected (ground truth of the workload)
+    txs = [tx for ag in a.sets for tx in ag['tx']]
+    for f in case.get('faults', []):
+        if not f.get('ele') or f.get('code') in (None, '*') or f.get('kind') in ('syntax_note',):
+            continue
+        line = f['line']
+        set_ord, pos = 0, 0
+        for k, s_ in enumerate(case['doc']):
+            if s_['id'] == 'ST':
+                set_ord += 1
+                pos = 1
+            elif s_['id'] not in ('ISA', 'GS', 'GE', 'IEA'):
+                pos += 1
+            if k == line:
+                break
+        if not (1 <= set_ord <= len(txs)):
+            continue
+        tx = txs[set_ord - 1]
+        hit = False
+        for s_ in tx['segs']:
+            if s_['seg'] is None or s_['seg'].get(1) != f['seg_id'] or s_['seg'].get(2) != str(pos):
+                continue
+            for el in s_['eles']:
+                p = el.elements[0] if el.elements else ['']
+                pc = p[1] if len(p) > 1 and p[1] != '' else None
+                if p[0] == str(f['ele']) and pc == (str(f['comp']) if f.get('comp') else None) and el.get(3) == f['code']:
+                    hit = True
+        if not hit and f['code'] in (IK4_CODES if is999 else AK4_CODES):
+            out.violate('ack', 'injected-fault-not-itemised|%s' % f['kind'],
+                        'fault %s injected at %s#%d element %s-%s (code %s) is not itemised at that position; lines for the set: %r' % (
+                            f['kind'], f['seg_id'], pos, f['ele'], f.get('comp'), f['code'],
+                            [[x['seg'].values() if x['seg'] is not None else None] + [e_.values() for e_ in x['eles']] for x in tx['segs']][:4]))
+            return
     # (4) addressing
     isas = [s for s in case['doc'] if s['id'] == 'ISA']
     gss = [s for s in case['doc'] if s['id'] == 'GS']
